@@ -268,6 +268,26 @@ def alias_matrix():
     return out
 
 
+def directory_cases():
+    """files in several directories: a relative import path is resolved from the directory of the IMPORTING file (round 7: C09-8,
+    resolved from the directory of the main program instead - a file of the same name there is linked silently)"""
+    util4 = 'func Scale(x int) int {\n\treturn x * 4\n}\n'
+    util200 = 'func Scale(x int) int {\n\treturn x * 200\n}\n'
+    geo = 'import u "util.tsh"\nfunc Area(a int, b int) int {\n\treturn u.Scale(a * b)\n}\n'
+    geo_up = 'import u "../util.tsh"\nfunc Area(a int, b int) int {\n\treturn u.Scale(a * b)\n}\n'
+    geo_down = 'import u "inner/util.tsh"\nfunc Area(a int, b int) int {\n\treturn u.Scale(a * b)\n}\n'
+    main = 'import g "lib/geometry.tsh"\nprint(g.Area(2, 3))\n'
+    main_both = 'import (\n\tg "lib/geometry.tsh"\n\tu "util.tsh"\n)\nprint(g.Area(2, 3), u.Scale(1))\n'
+    return [
+        ("dir-sibling-with-decoy-in-root", {"main.tsh": main, "lib/geometry.tsh": geo, "lib/util.tsh": util4, "util.tsh": util200}, "24\n"),
+        ("dir-sibling", {"main.tsh": main, "lib/geometry.tsh": geo, "lib/util.tsh": util4}, "24\n"),
+        ("dir-sibling-missing", {"main.tsh": main, "lib/geometry.tsh": geo, "util.tsh": util200}, None),
+        ("dir-parent", {"main.tsh": main, "lib/geometry.tsh": geo_up, "lib/util.tsh": util4, "util.tsh": util200}, "1200\n"),
+        ("dir-child", {"main.tsh": main, "lib/geometry.tsh": geo_down, "lib/inner/util.tsh": util4, "inner/util.tsh": util200, "util.tsh": util200}, "24\n"),
+        ("dir-both-utils", {"main.tsh": main_both, "lib/geometry.tsh": geo, "lib/util.tsh": util4, "util.tsh": util200}, "24 200\n"),
+    ]
+
+
 def defined_before_use(script):
     """every function the script invokes is defined in it before its first call (text level)"""
     defined = set()
@@ -299,7 +319,7 @@ def run(res, b, tier, seed):
         if c.out.get("BASH", ("", ""))[0] != "ERR":
             fails.append((c, "negative-accepted", dict(cls=c.out.get("BASH", ("", ""))[0])))
     # alias resolution matrix: rejected exactly when the property says so, accepted programs print the value of the function meant
-    am = [pipeline.Case("a" + name, {k: v.encode() for k, v in files.items()}, meta=dict(src=files["main.tsh"], expect=exp)) for name, files, exp in alias_matrix()]
+    am = [pipeline.Case("a" + name, {k: v.encode() for k, v in files.items()}, meta=dict(src=files["main.tsh"], expect=exp)) for name, files, exp in alias_matrix() + directory_cases()]
     pipeline.run_pipe(b, am, "as")
     acc = [c for c in am if c.out.get("BASH", ("", ""))[0] == "OK"]
     runs = common.pmap_proc(semcheck._exec, [(bytes.fromhex(c.out["BASH"][1]), b"") for c in acc])
